@@ -1,6 +1,7 @@
 import Srtla.Model.Sys
 import Srtla.Lemmas.Keepalive
 import Srtla.Lemmas.KeepaliveTrace
+import Srtla.Lemmas.KeepaliveReload
 import Srtla.Lemmas.Uplink
 import Srtla.Lemmas.Kalman
 import Srtla.Lemmas.SelectFrame
@@ -639,6 +640,107 @@ theorem C14_wire_cadence_two_periods (s0 : Sys F) (pre mid : List Ev) (t1 t2 j :
     C14_wire_cadence s0 pre mid t1 t2 1000 j l m h0 hpre hmid hnr h12 hD hl hlc hlt hm hmc hmt
   exact ⟨k1, k2, a5, by omega, a1, a3, a4, a8, a9⟩
 
+/-- **Cadence on the wire BY CONN ID, across reloads.**  `C14_wire_cadence` with the link followed by its conn id `c`
+instead of its index, so that `mid` may contain RELOADS (in the real loop a reload is the tail of the housekeeping arm,
+i.e. it sits right after the tick at `t1`): no `NoReload` hypothesis anywhere.  Conn ids pairwise distinct in the state
+before the first tick (`hnd`; only there).  If the link carrying `c` is connected and not timed out at the tick at `t1`,
+and after `mid` — any events other than housekeeping ticks, reloads included: the link may have moved to another index,
+links may have been removed and created — a link carrying `c` is connected and not timed out at the tick at `t2`, then the
+conclusion of `C14_wire_cadence` holds for conn id `c`: send times `k1 ≤ k2`, `k1 ≤ t1 < k1 + 1000`,
+`k2 ≤ t2 < k2 + 1000`, `k2 < k1 + 1000 + D`, `k2 = k1` or `k2 = t2`, and both keepalive FRAMES are in the wire history
+under conn id `c`.  The reason it spans the reload: a retained link's whole record — its stamp in particular — is
+unchanged by a reload (`reload_frame`), and a freshly created link carries no stamp (`KaTrace.runEvs_lksById`).  That a
+link whose address stays in every reload's list IS present afterwards, with the same conn id, is
+`Props/C09.lean: C09_link_set_closed_form` / `Props/SysReload.lean: reload_frame`. -/
+theorem C14_wire_cadence_by_id (s0 : Sys F) (pre mid : List Ev) (t1 t2 D c : Nat) (l m : FLink F)
+    (h0 : ∀ l ∈ s0.links, l.lastKeepaliveSent = none)
+    (hpre : ∀ e ∈ pre, ∀ t, e = .hk t → t ≤ t1)
+    (hmid : ∀ e ∈ mid, notHk e = true)
+    (hnd : ((runEvs s0 pre).links.map (·.core.connId)).Nodup)
+    (h12 : t1 ≤ t2) (hD : t2 - t1 ≤ D)
+    (hl : l ∈ (runEvs s0 pre).links) (hlid : l.core.connId = c) (hlc : l.core.connected = true)
+    (hlt : l.isTimedOut t1 = false)
+    (hm : m ∈ (runEvs s0 ((pre ++ [.hk t1]) ++ mid)).links) (hmid' : m.core.connId = c)
+    (hmc : m.core.connected = true) (hmt : m.isTimedOut t2 = false) :
+    ∃ k1 k2, k1 ≤ t1 ∧ t1 < k1 + 1000 ∧ k2 ≤ t2 ∧ t2 < k2 + 1000 ∧ k1 ≤ k2 ∧ k2 < k1 + 1000 + D ∧
+      (k2 = k1 ∨ k2 = t2) ∧
+      FrameAt (F := F) (wireTrace s0 (((pre ++ [.hk t1]) ++ mid) ++ [.hk t2])) c k1 ∧
+      FrameAt (F := F) (wireTrace s0 (((pre ++ [.hk t1]) ++ mid) ++ [.hk t2])) c k2 := by
+  obtain ⟨j1, hj1, hget1⟩ := List.getElem_of_mem hl
+  have hl' : (runEvs s0 pre).links[j1]? = some l := by rw [List.getElem?_eq_getElem hj1, hget1]
+  obtain ⟨j2, hj2, hget2⟩ := List.getElem_of_mem hm
+  have hm' : (runEvs s0 ((pre ++ [.hk t1]) ++ mid)).links[j2]? = some m := by
+    rw [List.getElem?_eq_getElem hj2, hget2]
+  -- tick 1
+  obtain ⟨l1, k1, hl1, hid1, hk1, hle1, hlt1, hf1⟩ := C14_cadence_wire s0 pre t1 j1 l h0 hpre hl' hlc hlt
+  have hrun1 : runEvs s0 (pre ++ [.hk t1]) = (step (runEvs s0 pre) (.hk t1)).1 := by
+    rw [runEvs_append]; rfl
+  have hnd1 : ((runEvs s0 (pre ++ [.hk t1])).links.map (·.core.connId)).Nodup := by
+    rw [hrun1, ids_of_idFrame (step_id (runEvs s0 pre) (.hk t1) rfl)]; exact hnd
+  -- between the ticks, by conn id
+  have hrun2 : runEvs s0 ((pre ++ [.hk t1]) ++ mid) = runEvs (runEvs s0 (pre ++ [.hk t1])) mid :=
+    runEvs_append _ _ _
+  have hby := runEvs_lksById (runEvs s0 (pre ++ [.hk t1])) mid hmid
+  rw [← hrun2] at hby
+  have hfm : LksFrame l1 m := by
+    rcases hby m hm with h | ⟨x, hx, hxid, hxs⟩
+    · exact Or.inr h
+    · have : x = l1 := eq_of_mem_of_id hnd1 hx (List.mem_of_getElem? hl1)
+        (by rw [hxid, hmid', hid1, hlid])
+      subst this
+      exact Or.inl hxs
+  -- tick 2
+  have hpre2 : ∀ e ∈ (pre ++ [.hk t1]) ++ mid, ∀ t, e = .hk t → t ≤ t2 := by
+    intro e he t het
+    rcases List.mem_append.mp he with he | he
+    · rcases List.mem_append.mp he with he | he
+      · exact Nat.le_trans (hpre e he t het) h12
+      · simp only [List.mem_singleton] at he; subst he; cases het; exact h12
+    · have := hmid e he; subst het; simp [notHk] at this
+  obtain ⟨l2, k2, hl2, hid2, hk2, hle2, hlt2, hf2⟩ :=
+    C14_cadence_wire s0 ((pre ++ [.hk t1]) ++ mid) t2 j2 m h0 hpre2 hm' hmc hmt
+  obtain ⟨l2', k2', hl2', -, hk2', -, hch⟩ :=
+    C14_cadence (runEvs s0 ((pre ++ [.hk t1]) ++ mid)) t2 j2 m hm' hmc hmt
+  have hrun3 : runEvs s0 (((pre ++ [.hk t1]) ++ mid) ++ [.hk t2]) =
+      (handleHousekeeping (runEvs s0 ((pre ++ [.hk t1]) ++ mid)) t2).1 := by
+    rw [runEvs_append]; rfl
+  rw [hrun3, hl2'] at hl2; cases hl2
+  rw [hk2'] at hk2; cases hk2
+  have hrel : k2 = k1 ∨ k2 = t2 := by
+    rcases hch with h | ⟨h, -⟩
+    · rcases hfm with h' | h'
+      · rw [h, h', hk1] at hk2'; cases hk2'; exact Or.inl rfl
+      · rw [h, h'] at hk2'; cases hk2'
+    · exact Or.inr h
+  refine ⟨k1, k2, hle1, hlt1, hle2, hlt2, ?_, ?_, hrel, ?_, ?_⟩
+  · rcases hrel with h | h <;> omega
+  · rcases hrel with h | h <;> omega
+  · rw [hlid] at hf1
+    obtain ⟨x, hx, hin⟩ := hf1
+    refine ⟨x, hx, ?_⟩
+    rw [List.append_assoc, wireTrace_append]
+    exact List.mem_append_left _ hin
+  · rw [hmid'] at hf2; exact hf2
+
+/-- The literal reading across reloads: with the 1 s housekeeping period two consecutive keepalive frames on the wire
+of conn id `c` are less than 2000 ms apart, whatever reloads happened between the two ticks. -/
+theorem C14_wire_cadence_two_periods_by_id (s0 : Sys F) (pre mid : List Ev) (t1 t2 c : Nat) (l m : FLink F)
+    (h0 : ∀ l ∈ s0.links, l.lastKeepaliveSent = none)
+    (hpre : ∀ e ∈ pre, ∀ t, e = .hk t → t ≤ t1)
+    (hmid : ∀ e ∈ mid, notHk e = true)
+    (hnd : ((runEvs s0 pre).links.map (·.core.connId)).Nodup)
+    (h12 : t1 ≤ t2) (hD : t2 - t1 ≤ 1000)
+    (hl : l ∈ (runEvs s0 pre).links) (hlid : l.core.connId = c) (hlc : l.core.connected = true)
+    (hlt : l.isTimedOut t1 = false)
+    (hm : m ∈ (runEvs s0 ((pre ++ [.hk t1]) ++ mid)).links) (hmid' : m.core.connId = c)
+    (hmc : m.core.connected = true) (hmt : m.isTimedOut t2 = false) :
+    ∃ k1 k2, k1 ≤ k2 ∧ k2 < k1 + 2000 ∧ k1 ≤ t1 ∧ k2 ≤ t2 ∧ t2 < k2 + 1000 ∧
+      FrameAt (F := F) (wireTrace s0 (((pre ++ [.hk t1]) ++ mid) ++ [.hk t2])) c k1 ∧
+      FrameAt (F := F) (wireTrace s0 (((pre ++ [.hk t1]) ++ mid) ++ [.hk t2])) c k2 := by
+  obtain ⟨k1, k2, a1, -, a3, a4, a5, a6, -, a8, a9⟩ :=
+    C14_wire_cadence_by_id s0 pre mid t1 t2 1000 c l m h0 hpre hmid hnd h12 hD hl hlid hlc hlt hm hmid' hmc hmt
+  exact ⟨k1, k2, a5, by omega, a1, a3, a4, a8, a9⟩
+
 end history
 
 /-- `exLink` before its first keepalive (no stamp): a start-up-like state for the run theorems. -/
@@ -661,6 +763,31 @@ example :
         fun x => Codec.getPacketTypeS x.2.2 == some 0x9000).map fun x => (x.1, x.2.1))
       = [(5000, 7), (6000, 7)] := by
   refine ⟨by intro l hl; simp [exSys0] at hl; subst hl; rfl, ?_⟩
+  decide +kernel
+
+/-- Two uplinks at distinct addresses (conn id 8 at address 1 in front, `exLink0` = conn id 7 at address 2 behind). -/
+def exSys0R : Sys Int :=
+  { links := [{ exLink0 with core := { exLink0.core with connId := 8 }, addr := 1 }, { exLink0 with addr := 2 }],
+    reg := Reg.Reg.new [] [], clientKnown := true }
+
+/-- `C14_wire_cadence_by_id` is not vacuous: between the tick at 5000 and the tick at 6000 a RELOAD removes the link in
+front (address 1) — conn id 7 moves from index 1 to index 0 and keeps its stamp 5000 — and adds address 3 (conn id 11,
+no stamp).  Conn id 7 is connected and not timed out at both ticks and the wire history holds its keepalive-typed
+datagrams sent at 5000 and at 6000; the removed conn id 8 gets one at 5000 only, the new link none. -/
+example :
+    let pre : List Ev := [.client 4950 [0, 0, 0, 9, 0, 0, 0, 0]]
+    let mid : List Ev := [.reload 5001 [2, 3] [some 11], .uplink 5300 7 exEcho, .flush 5500]
+    (∀ l ∈ exSys0R.links, l.lastKeepaliveSent = none) ∧
+    ((@KaTrace.runEvs Int Select.fixScalar exSys0R pre).links.map
+      fun m => (m.core.connId, m.core.connected, @FLink.isTimedOut Int Select.fixScalar m 5000))
+      = [(8, true, false), (7, true, false)] ∧
+    ((@KaTrace.runEvs Int Select.fixScalar exSys0R ((pre ++ [.hk 5000]) ++ mid)).links.map
+      fun m => (m.core.connId, m.core.connected, @FLink.isTimedOut Int Select.fixScalar m 6000, m.lastKeepaliveSent))
+      = [(7, true, false, some 5000), (11, false, false, none)] ∧
+    (((@KaTrace.wireTrace Int Select.fixScalar exSys0R (((pre ++ [.hk 5000]) ++ mid) ++ [.hk 6000])).filter
+        fun x => Codec.getPacketTypeS x.2.2 == some 0x9000).map fun x => (x.1, x.2.1))
+      = [(5000, 8), (5000, 7), (6000, 7)] := by
+  refine ⟨by intro l hl; simp [exSys0R] at hl; rcases hl with rfl | rfl <;> rfl, ?_⟩
   decide +kernel
 
 /-! ## Round 3: RTT sampling over `Sys.step` — every event constructor, every link, every run
